@@ -71,3 +71,41 @@ func TestC10Owned(t *testing.T) {
 		return c
 	}, checkC11)
 }
+
+// TestC04Owned: the "1002 is sent" clause of C04 after a history in which
+// WriteControl callers timed out behind a writer held in the transport.
+func TestC04Owned(t *testing.T) {
+	concT = t
+	RunProp(t, "C04", "after-contention", func(rt *rapid.T) ConcCase {
+		c := genConcCase(rt, false)
+		c.PeerViolation, c.ReaderLast, c.PeerClose = true, true, 0
+		// no application close and no Close(): the 1002 must be the only close frame
+		var steps []WStep
+		for _, s := range c.Steps {
+			if s.MT != 8 {
+				steps = append(steps, s)
+			}
+		}
+		if len(steps) == 0 {
+			steps = []WStep{{Op: "msg", MT: 2, Data: Payload{Len: 300, Kind: "counter"}}}
+		}
+		c.Steps = steps
+		var ctl []CtlActor
+		for _, a := range c.Ctl {
+			if a.MT != 8 {
+				ctl = append(ctl, a)
+			}
+		}
+		ctl = append(ctl, CtlActor{MT: 9, Len: 8, DeadlineMs: rapid.SampledFrom([]int{1, 50}).Draw(rt, "short_deadline")})
+		c.Ctl = ctl
+		var sched []SAct
+		for _, a := range c.Sched {
+			if a.Kind != "close" {
+				sched = append(sched, a)
+			}
+		}
+		// writer first, then the short-deadline caller, then let its deadline pass
+		c.Sched = append([]SAct{{Kind: "start", Arg: 0}, {Kind: "start", Arg: 1 + len(ctl)}, {Kind: "sleep", Arg: 600}}, sched...)
+		return c
+	}, checkC11)
+}
